@@ -45,7 +45,15 @@ def _analyse_variant(args) -> dict:
     try:
         dst = os.path.join(tmp, 'bubus')
         shutil.copytree(os.path.join(root, 'bubus'), dst, ignore=shutil.ignore_patterns('__pycache__'))
-        if variant is not None:
+        if variant is not None and variant.get('patch'):
+            import subprocess
+
+            r = subprocess.run(['git', 'apply', '--whitespace=nowarn', '--unsafe-paths', '--directory', tmp, variant['patch']], capture_output=True, text=True, cwd=tmp)
+            if r.returncode != 0:
+                r = subprocess.run(['patch', '-p1', '-s', '-f', '-i', variant['patch']], capture_output=True, text=True, cwd=tmp)
+            if r.returncode != 0:
+                return {'id': variant['id'], 'status': 'skipped', 'reason': 'patch no longer applies to the current tree'}
+        elif variant is not None:
             edits = variant.get('edits') or [(variant['file'], variant['old'], variant['new'])]
             for f, old, new in edits:
                 p = os.path.join(tmp, f)
@@ -79,7 +87,17 @@ def variants_for(prop: str) -> tuple[list[dict], list[dict]]:
 
     muts = [m for m in M.MUTANTS if m['prop'] == prop]
     neutrals = list(M.NEUTRALS)
-    return muts, neutrals
+    import glob
+
+    for pth in sorted(glob.glob(os.path.join(VERIF, 'neutral', '*', 'patch.diff'))):
+        neutrals.append({'id': 'refactor-' + os.path.basename(os.path.dirname(pth)), 'patch': pth, 'what': 'independently written behaviour-preserving refactoring (suite passes)'})
+    seeded = []
+    for pth in sorted(glob.glob(os.path.join(VERIF, 'seeded', prop + '-*', 'patch.diff'))):
+        meta = os.path.join(os.path.dirname(pth), 'meta.json')
+        if os.path.exists(meta) and __import__('json').load(open(meta)).get('seed_base'):
+            continue  # applies to an earlier commit of /repo (the defect it relied on was repaired since)
+        seeded.append({'id': 'seeded-' + os.path.basename(os.path.dirname(pth)), 'prop': prop, 'expect': ['*'], 'patch': pth, 'what': 'independently written regression (confirmed dynamically)'})
+    return muts + seeded, neutrals
 
 
 def run_selftest(prop: str, root: str, seed: int = 0, verbose: bool = True) -> tuple[int, dict]:
@@ -114,6 +132,8 @@ def run_selftest(prop: str, root: str, seed: int = 0, verbose: bool = True) -> t
                 row['result'] = 'silent'
         else:
             want = set(spec['expect'])
+            if want == {'*'}:
+                want = set(new_obs) or {'<any obligation of the property>'}
             if want & new_obs:
                 caught += 1
                 row['result'] = 'caught by ' + ', '.join(sorted(want & new_obs))
